@@ -304,6 +304,13 @@ fn run_history(s: &Session, fresh_probe: &[String], r: &mut CaseResult) -> (usiz
                         r.fail(&c, format!("{m}\n--- {name}\n{src}"));
                     }
                     // recoverable: call stack empty, probe behaves as on a fresh evaluator, earlier variables intact
+                    // the host may inspect the (now empty) call stack
+                    let frames = std::panic::catch_unwind(std::panic::AssertUnwindSafe(|| eval.call_stack().frames.len()));
+                    match frames {
+                        Ok(0) => {}
+                        Ok(n) => r.fail("callstack-not-empty", format!("Evaluator::call_stack() lists {n} frame(s) after the error `{}`\n--- {name}\n{src}", e.without_diagnostic())),
+                        Err(p) => r.fail("call-stack-api-panics", format!("Evaluator::call_stack() panics after the error `{}`: {}\n--- {name}\n{src}", e.without_diagnostic(), panic_msg(&p))),
+                    }
                     if eval.call_stack_count() != 0 {
                         r.fail("callstack-not-empty", format!("call_stack_count() = {} after the error `{}`\n--- {name}\n{src}", eval.call_stack_count(), e.without_diagnostic()));
                     }
